@@ -15,7 +15,7 @@ from ..base import Result
 
 ID = "C05"
 RULE = ("Random op sequences (fill-drain / Dijkstra-like / random mixes; capacities 1..64 quick, ..200 thorough; "
-        "both policies; cost alphabets {0,1,2}, small ints, Gaussian floats, +-FLOAT_MAX) plus a bounded exhaustive "
+        "both policies; cost alphabets {0,1,2}, small ints, Gaussian floats, +-FLOAT_MAX, multiples of 1e-21, multiples of 1e300) plus a bounded exhaustive "
         "sweep of all legal sequences over capacity<=3, costs {0,1,2}, plus live traffic: real supervised / semi / KNN / unsupervised fits with an "
         "in-situ oracle on every Heap.remove (removed element has the extremal cost among all queued). Non-trivial: capacity>=3, >=2 successful "
         "removes and >=1 strictly improving update of a queued element; distinct = distinct op-sequence hash.")
@@ -170,7 +170,11 @@ def run_ops(size, policy, ops, res=None, drain=True):
 
 # --------------------------------------------------------------------------- generation
 def _cost_source(rng, policy):
-    kind = rng.integers(0, 5)
+    kind = rng.integers(0, 7)
+    if kind == 5:      # costs far below any absolute epsilon: ordering must still be exact
+        return lambda: float(rng.integers(0, 6)) * 1e-21
+    if kind == 6:      # huge costs
+        return lambda: float(rng.integers(-3, 6)) * 1e300
     if kind == 0:
         return lambda: float(rng.integers(0, 3))
     if kind == 1:
